@@ -65,6 +65,12 @@ pub fn enter_jail_opts(proc_opts: Option<&str>) -> MResult<()> {
         std::fs::create_dir_all(out("/proc")).map_err(|e| Mach(format!("mkdir jail/proc: {}", e)))?;
         let p = cs(&out("/proc"));
         let proc_ = cs("proc");
+        // "TMPFS": the caller's /proc is not a procfs at all (an empty tmpfs sits there)
+        if proc_opts == Some("TMPFS") {
+            if libc::mount(tmpfs.as_ptr(), p.as_ptr(), tmpfs.as_ptr(), 0, std::ptr::null()) != 0 { return mach(format!("mount tmpfs on jail/proc: errno {}", errno())); }
+            std::fs::create_dir_all(out(ROOT_IN)).map_err(|e| Mach(format!("mkdir root: {}", e)))?;
+            return assert_jail();
+        }
         let po = proc_opts.map(cs);
         if libc::mount(proc_.as_ptr(), p.as_ptr(), proc_.as_ptr(), 0, po.as_ref().map(|c| c.as_ptr() as *const libc::c_void).unwrap_or(std::ptr::null())) != 0 {
             return mach(format!("mount proc in jail: errno {}", errno()));
